@@ -408,6 +408,11 @@ def _work(item):
     return st
 
 
+def _det_work(case):
+    core.check_deterministic(judge, case)
+    return core.Stats()
+
+
 def run(tier, seed, t0):
     global _SNAP0  # pylint: disable=global-statement
     corp = corpus.build(tier, per_identity=1 if tier == "quick" else 3)
@@ -476,7 +481,10 @@ def run(tier, seed, t0):
     work = [("hist", ch) for ch in core.chunks(cases_, 600)]
     work = [("threads", w) for w in plan_threads(tier)] + work
     st.merge(core.pmap(_work, work))
-    core.check_deterministic(judge, cases_[len(cases_) // 2])
+    if not st.violations:
+        # harness determinism, checked in a forked child so that this process stays cold; if the
+        # library itself were history dependent the explorations above have already reported it
+        core.pmap(_det_work, [cases_[len(cases_) // 2]], nproc=2)
     prefixes = set()
     for c in cases_:
         hk = tuple((core.h64(p), k) for p, k in c["history"])
